@@ -149,15 +149,15 @@ def highlights(out):
 
 
 def sibling_document(src):
-    """src with the first concrete line break and the following concrete letter swapped (None if there is no such place)"""
-    for i in range(40, len(src) - 40):
-        a, b = src[i], src[i + 1]
-        if isinstance(a, int) and isinstance(b, int) and a == 10 and (97 <= b <= 122 or 65 <= b <= 90):
-            return src[:i] + [b, a] + src[i + 2:]
-    for i in range(1, len(src) - 2):
-        a, b = src[i], src[i + 1]
-        if isinstance(a, int) and isinstance(b, int) and a == 10 and (97 <= b <= 122 or 65 <= b <= 90):
-            return src[:i] + [b, a] + src[i + 2:]
+    """same length, same first and last 32 bytes, but one line more or less in the middle: a concrete blank there becomes a line
+    break (or a concrete line break becomes a blank). None if the document is too short for that."""
+    lo, hi = 33, len(src) - 33
+    for i in range(lo, hi):
+        if isinstance(src[i], int) and src[i] == 32:
+            return src[:i] + [10] + src[i + 1:]
+    for i in range(lo, hi):
+        if isinstance(src[i], int) and src[i] == 10:
+            return src[:i] + [32] + src[i + 1:]
     return None
 
 
